@@ -70,7 +70,7 @@ def cmd_check(args):
     driver = load_driver(prop)
     tier = args.tier
     verif_seed = int(os.environ.get("VERIF_SEED", "0"))
-    lanes = int(os.environ.get("VERIF_LANES", str(min(16, os.cpu_count() or 1))))
+    lanes = int(os.environ.get("VERIF_LANES", str(min(getattr(driver, "LANES", 16), os.cpu_count() or 1))))
     budget = float(os.environ.get("VERIF_BUDGET_S", driver.BUDGET[tier]))
     max_runs = int(os.environ.get("VERIF_MAX_RUNS", driver.MAX_RUNS[tier]))
     pool = LanePool(prop, lanes)
